@@ -15,7 +15,15 @@ P1 == <<1,0,1,0, 0,0,0,0, 0,0,0,1>>                            \* 12 bits, not a
 P2 == <<0,1,0,0,0,0,0,1, 0,0,0,0,0,0,0,0, 0,1,0,0,0,0,1,0>>    \* "A" NUL "B"
 P3 == <<1,1,0>>
 
-Alphabet == {
+\* a long input (160 bits, value 5) for the fields that are refused by their WIDTH: an unsigned field wider than 127 bits
+\* and a signed one wider than 128 do not fit a cell, whatever their value
+P4 == Zeros(152) \o <<0,0,0,0,0,1,0,1>>
+WideAlphabet == {
+   W("uint", "num", 128, <<>>), W("uint", "num", 129, <<>>), W("uint", "num", 136, <<>>), W("uint", "num", 160, <<>>), W("uint", "num", 161, <<>>),
+   W("int", "num", 129, <<>>), W("int", "num", 136, <<>>), W("int", "num", 160, <<>>),
+   W("bits", "num", 8, <<>>), W("bits", "num", 3, <<>>), W("drop", "plain", 0, <<>>), W("u8", "plain", 0, <<>>), W("seek", "num", 8, <<>>), W("seek", "num", 24, <<>>),
+   W("remain", "plain", 0, <<>>), W("offset", "plain", 0, <<>>), W("big", "plain", 0, <<>>), W("little", "plain", 0, <<>>) }
+Alphabet == IF Setup = 4 THEN WideAlphabet ELSE {
    W("openlit", "lit", 0, P1), W("openlit", "lit", 0, P2), W("openlit", "lit", 0, P3), W("openlit", "lit", 0, <<>>),
    W("open-bitstr", "plain", 0, <<>>), W("close-bitstr", "plain", 0, <<>>), W("drop", "plain", 0, <<>>),
    W("bits", "num", 0, <<>>), W("bits", "num", 1, <<>>), W("bits", "num", 3, <<>>), W("bits", "num", 8, <<>>),
@@ -46,7 +54,9 @@ Setups == <<
   \* two suspended inputs, the current one a 9-bit slice starting at bit 2, offset in the middle
   << W("openlit", "lit", 0, P2), W("bits", "num", 8, <<>>), W("drop", "plain", 0, <<>>), W("openlit", "lit", 0, P1),
      W("bits", "num", 2, <<>>), W("drop", "plain", 0, <<>>), W("bits", "num", 9, <<>>), W("open-bitstr", "plain", 0, <<>>),
-     W("bits", "num", 4, <<>>), W("drop", "plain", 0, <<>>) >> >>
+     W("bits", "num", 4, <<>>), W("drop", "plain", 0, <<>>) >>,
+  \* the long input
+  << W("big", "plain", 0, <<>>), W("openlit", "lit", 0, P4) >> >>
 RECURSIVE RunPrefix(_, _, _)
 RunPrefix(x, ws, k) == IF k > Len(ws) THEN x ELSE RunPrefix(Apply(x, ws[k]), ws, k + 1)
 RECURSIVE PrefixPath(_, _, _)
